@@ -259,10 +259,16 @@ pub fn run_cop_on(sign: &Sign, op: &str) -> Option<Result<String, SignError>> {
             let on_clone: Vec<String> = if nested.starts_with('@') { pre.remove(0) } else { vec![] };
             let bus = PEEK_BUS.with(|b| b.borrow().clone()).expect("a bus");
             let call = |c: &String| {
+                // "!<call>": the iterator catches a panic of the call as well and carries on
+                let (swallow, c) = match c.strip_prefix('!') {
+                    Some(r) => (true, r.to_string()),
+                    None => (false, c.clone()),
+                };
+                let c = &c;
                 let q: Vec<&str> = c.splitn(3, '.').collect();
                 let same_sign = Address(num::<u16>(q[1])) == sign.address() && ((q[0] != "CFG" && q[0] != "CIN") || SIGN_TYPES[num::<usize>(q[2])] == sign.sign_type());
                 let r = if same_sign { run_cop_on(sign, c) } else { run_cop(c, bus.clone()) };
-                if r.is_none() {
+                if r.is_none() && !swallow {
                     panic!("the call made by the page iterator panicked");
                 }
             };
@@ -296,6 +302,21 @@ pub fn run_cop_on(sign: &Sign, op: &str) -> Option<Result<String, SignError>> {
                 }),
                 on_clone: &talk_on_clone,
             };
+            guarded(|| sign.send_pages(it).map(|s| format!(".{}", str_style(s))))
+        }
+        "SNX" => {
+            // send_pages over a source that yields the pages and panics when it is asked for one more
+            let pages = pages_of_str(p[2]);
+            let slice = &pages[..];
+            let mut i = 0usize;
+            let it = std::iter::from_fn(move || {
+                if i < slice.len() {
+                    i += 1;
+                    Some(&slice[i - 1])
+                } else {
+                    panic!("the page source failed")
+                }
+            });
             guarded(|| sign.send_pages(it).map(|s| format!(".{}", str_style(s))))
         }
         "SNF" => {
